@@ -141,8 +141,14 @@ split_instance!(vs_split_fill8_partial_in_flight, 8, 1, [2]);
 // ---- MTU probe rule (C14.6) ---------------------------------------------------------------------
 
 fn probe_step(outstanding: bool) {
+    probe_step_fill(outstanding, 8)
+}
+
+/// `fill` buffered bytes: 8 = the full 5-byte probe fits; 4 = the segment is cut short by the end of the data
+/// but still exceeds the proven size 2, so it is still an (undersized) probe.
+fn probe_step_fill(outstanding: bool, fill: usize) {
     // search interval [2, 6], cool-down expired: the next size is the probe 5
-    let mut t = make_vsock(VirtualSocketState::Established, VsConfig { link_mtu: 54, rx_buf: 12, nagle: false, ring: (8, 3, 8), tx_max: 8 });
+    let mut t = make_vsock(VirtualSocketState::Established, VsConfig { link_mtu: 54, rx_buf: 12, nagle: false, ring: (8, 3, fill), tx_max: 8 });
     t.vsock.segment_sizes = crate::mtu::verif_mtu__c14::verif_segment_sizes(2, 6, 0, 3);
     {
         let old = std::mem::replace(&mut t.vsock.user_tx_segments, segments_with::<0>(OUR_SEQ, [], 0, 0, false));
@@ -164,9 +170,11 @@ fn probe_step(outstanding: bool) {
     if outstanding {
         assert!(n == 0, "C14: nothing is segmented behind an outstanding probe (at most one probe, and it is the newest segment)");
     } else {
-        assert!(n == 1 && sizes[0] == 5 && pf[0], "C14: with the cool-down over the next segment is the mid-point probe, flagged as such");
+        let want = core::cmp::min(5, fill);
+        assert!(n == 1 && sizes[0] == want, "C14: with the cool-down over the next segment is the mid-point probe (or what is left of the data)");
+        assert!(pf[0], "C14: every segment larger than the proven size is flagged as a probe (so it can be popped and re-split if it does not get through)");
         assert!(sizes[0] as u16 <= t.vsock.segment_sizes.max_ss(), "C14: a probe never exceeds the ceiling");
-        assert!(t.vsock.this_poll.unsegmented_data == 3, "C14: segmentation stops right after the probe: the probe is the newest segment");
+        assert!(t.vsock.this_poll.unsegmented_data == fill - want, "C14: segmentation stops right after the probe: the probe is the newest segment");
     }
     finish(t);
 }
@@ -183,6 +191,22 @@ crate::verif_tier_c! {
 #[kani::unwind(6)]
 fn vs_split_mtu_probe_rule() {
     probe_step(kani::any());
+    kani::cover!(true, "end of harness reachable (assumptions satisfiable, no unconditional failure)");
+}
+}
+
+// @verif id=VS.split.probe2 props=C14 tier=quick timeout=900
+// @functions VirtualSocket::split_tx_queue_into_segments
+// @bounds as VS.split.probe(a) but only 4 bytes are buffered: the probing slot yields a 4-byte segment, larger than the proven size 2 and smaller than the probe size 5
+// @asserts the segment is still flagged as a probe (ordinary segments never exceed the largest size proven deliverable)
+// @stubs Segments::pop_expired_mtu_probe -> contract stub (Empty)
+// @unwindset make_tx_at=9,__vs::record=37
+crate::verif_tier_c! {
+#[kani::stub(ringbuf::storage::Heap::new, crate::stream_tx::verif_stream_tx__tx::stub_heap_new)]
+#[kani::stub(crate::stream_tx_segments::Segments::pop_expired_mtu_probe, crate::stream_tx_segments::Segments::stub_pop_expired_mtu_probe)]
+#[kani::unwind(6)]
+fn vs_split_undersized_probe_is_flagged() {
+    probe_step_fill(false, 4);
     kani::cover!(true, "end of harness reachable (assumptions satisfiable, no unconditional failure)");
 }
 }
